@@ -149,7 +149,9 @@ func pow10(k int) *big.Int { return new(big.Int).Exp(big.NewInt(10), big.NewInt(
 var fnNames = map[int]string{1: "CHAR_LENGTH", 2: "LENGTH", 3: "CONCAT", 4: "SUBSTRING", 5: "SUBSTRING", 6: "LEFT", 7: "RIGHT",
 	8: "REVERSE", 9: "REPEAT", 10: "INSTR", 11: "LOCATE", 12: "LOCATE", 13: "INSERT", 14: "LPAD", 15: "RPAD", 16: "HEX", 17: "UNHEX",
 	18: "TO_BASE64", 19: "FROM_BASE64", 20: "CONV", 21: "INET_ATON", 22: "INET_NTOA", 23: "ROUND", 24: "ROUND", 25: "TRUNCATE",
-	26: "CEIL", 27: "FLOOR"}
+	26: "CEIL", 27: "FLOOR", 29: "LTRIM", 30: "RTRIM", 31: "REPLACE", 32: "UPPER", 33: "LOWER", 34: "BIN", 35: "OCT", 36: "HEX",
+	37: "ABS", 38: "SIGN", 39: "MOD", 40: "ASCII", 41: "ORD", 42: "CHAR", 43: "SUBSTRING_INDEX", 44: "STRCMP", 45: "FIELD", 46: "ELT",
+	47: "CONCAT_WS"}
 
 var compressSeq int
 
@@ -182,6 +184,9 @@ func (r *runner) call(fn int, args ...Arg) Obs {
 		lits[i] = a.lit()
 	}
 	q := "SELECT " + fnNames[fn] + "(" + strings.Join(lits, ", ") + ")"
+	if fn == -1 {
+		q = args[0].S
+	}
 	res := r.s.Query(q)
 	var o Obs
 	switch {
@@ -214,6 +219,15 @@ func (r *runner) call(fn int, args ...Arg) Obs {
 		}
 	}
 	r.cs.Calls = append(r.cs.Calls, Call{Fn: fn, SQL: q, Args: args, Out: o})
+	return o
+}
+
+// trimCall issues TRIM([BOTH|LEADING|TRAILING] pat FROM s) and records it as function 28 with the direction first.
+func (r *runner) trimCall(dir int, pat, str Arg) Obs {
+	kw := []string{"BOTH", "LEADING", "TRAILING"}[dir]
+	q := "SELECT TRIM(" + kw + " " + pat.lit() + " FROM " + str.lit() + ")"
+	o := r.call(-1, S(q))
+	r.cs.Calls[len(r.cs.Calls)-1] = Call{Fn: 28, SQL: q, Args: []Arg{I(int64(dir)), pat, str}, Out: o}
 	return o
 }
 
@@ -307,7 +321,8 @@ func numArg(r *lib.RNG) Arg {
 
 func gen(r *lib.RNG) caseT {
 	fams := []string{"concat", "reverse", "leftright", "substr", "locate", "insert", "pad", "repeat", "hex", "unhex", "b64", "b64", "b64dec",
-		"conv", "convraw", "inet_n", "inet_s", "round", "trunc", "ceilfloor", "compress"}
+		"conv", "convraw", "inet_n", "inet_s", "round", "trunc", "ceilfloor", "compress",
+		"trim", "replace", "case", "radix", "absmod", "ascii", "subidx", "strcmp", "fieldelt", "concatws"}
 	f := lib.Pick(r, fams)
 	switch f {
 	case "concat":
@@ -370,7 +385,141 @@ func gen(r *lib.RNG) caseT {
 			return caseT{Fam: f, In: []Arg{S(exactBytes(r, n))}}
 		}
 		return caseT{Fam: f, In: []Arg{S(exactBytes(r, r.Range(0, 400)))}}
+	case "trim":
+		core := randStr(r, 5, r.Bool())
+		pat := lib.Pick(r, []string{" ", " ", "x", "ab", "é", "", "aa", "a"})
+		rep := func() string { return strings.Repeat(pat, r.Intn(3)) }
+		str := rep() + core + rep()
+		if r.Chance(1, 5) {
+			str = strings.Repeat(" ", r.Intn(3)) + core + strings.Repeat(" ", r.Intn(3))
+		}
+		sa, pa := S(str), S(pat)
+		if r.Chance(1, 25) {
+			sa = NUL()
+		}
+		if r.Chance(1, 25) {
+			pa = NUL()
+		}
+		return caseT{Fam: f, In: []Arg{sa, pa, I(int64(r.Intn(3)))}}
+	case "replace":
+		str := randStr(r, 9, r.Bool())
+		from := randStr(r, 2, true)
+		if rs := []rune(str); len(rs) > 0 && r.Chance(2, 3) {
+			a := r.Intn(len(rs))
+			b := a + 1 + r.Intn(2)
+			if b > len(rs) {
+				b = len(rs)
+			}
+			from = string(rs[a:b])
+		}
+		to := randStr(r, 3, r.Bool())
+		if r.Chance(1, 6) {
+			to = from
+		}
+		in := []Arg{S(str), S(from), S(to)}
+		if r.Chance(1, 12) {
+			in[r.Intn(3)] = NUL()
+		}
+		return caseT{Fam: f, In: in}
+	case "case":
+		return caseT{Fam: f, In: []Arg{strArg(r, 8)}}
+	case "radix":
+		var n *big.Int
+		switch r.Intn(6) {
+		case 0:
+			n = lib.Pick(r, []*big.Int{big.NewInt(0), big.NewInt(-1), big.NewInt(-256), big.NewInt(-2), big.NewInt(255), big.NewInt(256),
+				maxI64, big.NewInt(-9223372036854775807), new(big.Int).SetUint64(1<<64 - 1), big.NewInt(-65536), big.NewInt(-129)})
+		case 1:
+			n = big.NewInt(-int64(r.Uint64() >> uint(1+r.Intn(63))))
+		default:
+			n = big.NewInt(int64(r.Uint64() >> uint(1+r.Intn(63))))
+		}
+		return caseT{Fam: f, In: []Arg{IB(n)}}
+	case "absmod":
+		pick := func() Arg {
+			switch r.Intn(8) {
+			case 0:
+				return NUL()
+			case 1:
+				return IB(lib.Pick(r, []*big.Int{maxI64, big.NewInt(-9223372036854775807), new(big.Int).Neg(new(big.Int).SetUint64(1 << 63)), big.NewInt(0)}))
+			case 2:
+				return D(big.NewInt(int64(r.Range(-5000, 5000))), r.Range(1, 3))
+			}
+			return I(int64(r.Range(-50, 50)))
+		}
+		b := I(int64(r.Range(-7, 7)))
+		if r.Chance(1, 20) {
+			b = NUL()
+		}
+		return caseT{Fam: f, In: []Arg{pick(), b}}
+	case "ascii":
+		var ns []Arg
+		k := r.Range(1, 3)
+		for i := 0; i < k; i++ {
+			switch r.Intn(6) {
+			case 0:
+				ns = append(ns, NUL())
+			case 1:
+				ns = append(ns, I(lib.Pick(r, []int64{0, 255, 256, 65535, 65536, 16777215, 16777216, 4294967295, -1, -2})))
+			default:
+				ns = append(ns, I(int64(r.Intn(300))))
+			}
+		}
+		return caseT{Fam: f, In: append([]Arg{strArg(r, 4)}, ns...)}
+	case "subidx":
+		d := lib.Pick(r, []string{".", ",", "ab", "é", "..", " "})
+		n := r.Intn(5)
+		parts := make([]string, n+1)
+		for i := range parts {
+			parts[i] = randStr(r, 3, true)
+		}
+		str := strings.Join(parts, d)
+		in := []Arg{S(str), S(d), I(int64(r.Range(-6, 6)))}
+		if r.Chance(1, 15) {
+			in[2] = I(lib.Pick(r, []int64{9223372036854775807, -9223372036854775807}))
+		}
+		if r.Chance(1, 15) {
+			in[r.Intn(3)] = NUL()
+		}
+		return caseT{Fam: f, In: in}
+	case "strcmp":
+		a := strArg(r, 4)
+		b := strArg(r, 4)
+		if !a.null() && r.Chance(1, 3) {
+			b = S(a.S + randStr(r, 1, true))
+		}
+		if !a.null() && r.Chance(1, 5) {
+			b = a
+		}
+		return caseT{Fam: f, In: []Arg{a, b}}
+	case "fieldelt":
+		k := r.Range(1, 4)
+		in := []Arg{strArg(r, 2)}
+		for i := 0; i < k; i++ {
+			in = append(in, strArg(r, 2))
+		}
+		if !in[0].null() && r.Chance(1, 2) {
+			v := in[0].S
+			if r.Bool() {
+				v = strings.ToUpper(v)
+			}
+			in[1+r.Intn(k)] = S(v)
+		}
+		return caseT{Fam: f, In: append(in, smallArg(r, -1, k+1))}
+	case "concatws":
+		k := r.Range(1, 4)
+		in := []Arg{strArg(r, 2)}
+		for i := 0; i < k; i++ {
+			in = append(in, strArg(r, 3))
+			if r.Chance(1, 6) {
+				in[len(in)-1] = NUL()
+			}
+		}
+		return caseT{Fam: f, In: in}
 	case "compress":
+		if r.Chance(1, 12) { // a payload at or beyond the 32 KiB window
+			return caseT{Fam: f, In: []Arg{S(strings.Repeat(randStr(r, 3, true)+"q", 40000)[:r.Range(32760, 36000)]), S("tail")}}
+		}
 		n := r.Range(2, 5)
 		in := make([]Arg, n)
 		for i := range in {
@@ -1039,6 +1188,267 @@ func run(c *lib.Ctx, e *eng.E, cs caseT) {
 		if fl.K != "int" || fl.rat().Cmp(xv) > 0 || new(big.Rat).Sub(xv, fl.rat()).Cmp(one) >= 0 {
 			fail("floor/"+beyond("negative-fraction-above-minus-one-tenth-gives-zero"), fmt.Sprintf("FLOOR(%s) = %s", x.lit(), fl.I))
 		}
+	case "trim":
+		str, pat, dir := in[0], in[1], int(in[2].int64())
+		o := r.trimCall(dir, pat, str)
+		lt, rt := r.call(29, str), r.call(30, str)
+		if wantNull(lt, "LTRIM", str) || wantNull(o, "TRIM", str, pat) {
+			break
+		}
+		want := str.S
+		if pat.S != "" {
+			if dir == 0 || dir == 1 {
+				for strings.HasPrefix(want, pat.S) {
+					want = want[len(pat.S):]
+				}
+			}
+			if dir == 0 || dir == 2 {
+				for strings.HasSuffix(want, pat.S) {
+					want = want[:len(want)-len(pat.S)]
+				}
+			}
+		}
+		if !o.isStr() || o.str() != want {
+			fail("trim/wrong", fmt.Sprintf("TRIM(dir %d %q FROM %q) = %v, expected %q", dir, pat.S, str.S, o, want))
+		}
+		if !lt.isStr() || lt.str() != strings.TrimLeft(str.S, " ") || !rt.isStr() || rt.str() != strings.TrimRight(str.S, " ") {
+			fail("ltrim-rtrim/wrong", fmt.Sprintf("LTRIM/RTRIM(%q) = %v / %v", str.S, lt, rt))
+			break
+		}
+		both := r.trimCall(0, S(" "), str)
+		lr := r.call(29, S(rt.str()))
+		rl := r.call(30, S(lt.str()))
+		if !both.isStr() || !lr.isStr() || !rl.isStr() || lr.str() != both.str() || rl.str() != both.str() {
+			fail("trim/ltrim-rtrim-inconsistent", fmt.Sprintf("TRIM(%q) = %v, LTRIM(RTRIM) = %v, RTRIM(LTRIM) = %v", str.S, both, lr, rl))
+		}
+	case "replace":
+		str, from, to := in[0], in[1], in[2]
+		o := r.call(31, str, from, to)
+		if wantNull(o, "REPLACE", str, from, to) {
+			break
+		}
+		// reference: leftmost non-overlapping occurrences
+		want, cnt := "", 0
+		if from.S == "" {
+			want = str.S
+		} else {
+			for rest := str.S; ; {
+				i := strings.Index(rest, from.S)
+				if i < 0 {
+					want += rest
+					break
+				}
+				want += rest[:i] + to.S
+				rest = rest[i+len(from.S):]
+				cnt++
+			}
+		}
+		if !o.isStr() || o.str() != want {
+			fail("replace/wrong", fmt.Sprintf("REPLACE(%q,%q,%q) = %v, expected %q", str.S, from.S, to.S, o, want))
+			break
+		}
+		if len(o.str()) != len(str.S)+cnt*(len(to.S)-len(from.S)) {
+			fail("replace/length-law", fmt.Sprintf("REPLACE(%q,%q,%q) has length %d", str.S, from.S, to.S, len(o.str())))
+		}
+		same := r.call(31, str, from, from)
+		if !same.isStr() || same.str() != str.S {
+			fail("replace/same-not-identity", fmt.Sprintf("REPLACE(%q,%q,%q) = %v", str.S, from.S, from.S, same))
+		}
+	case "case":
+		str := in[0]
+		up, lo := r.call(32, str), r.call(33, str)
+		if wantNull(up, "UPPER", str) || wantNull(lo, "LOWER", str) {
+			break
+		}
+		if !up.isStr() || !lo.isStr() || utf8.RuneCountInString(up.str()) != utf8.RuneCountInString(str.S) || utf8.RuneCountInString(lo.str()) != utf8.RuneCountInString(str.S) {
+			fail("upper-lower/length-changed", fmt.Sprintf("UPPER/LOWER(%q) = %v / %v", str.S, up, lo))
+			break
+		}
+		lu, ll := r.call(33, S(up.str())), r.call(33, S(lo.str()))
+		if !lu.isStr() || lu.str() != lo.str() || !ll.isStr() || ll.str() != lo.str() {
+			fail("upper-lower/not-consistent", fmt.Sprintf("LOWER(UPPER(%q)) = %v, LOWER(LOWER) = %v, LOWER = %q", str.S, lu, ll, lo.str()))
+		}
+	case "radix":
+		n := in[0]
+		bin, oct, hx := r.call(34, n), r.call(35, n), r.call(36, n)
+		u := new(big.Int).Set(n.big())
+		if u.Sign() < 0 {
+			u.Add(u, new(big.Int).Lsh(big.NewInt(1), 64))
+		}
+		check := func(o Obs, base int, name string) {
+			if !o.isStr() || strings.ToUpper(u.Text(base)) != o.str() {
+				sig := strings.ToLower(name) + "/wrong"
+				if name == "BIN" && n.big().Sign() < 0 {
+					sig = "bin/negative-bytes-not-zero-padded"
+				}
+				fail(sig, fmt.Sprintf("%s(%s) = %q, expected %s (so CONV(%s(n),%d,10) <> n)", name, n.I, o.str(), strings.ToUpper(u.Text(base)), name, base))
+			}
+		}
+		check(bin, 2, "BIN")
+		check(oct, 8, "OCT")
+		check(hx, 16, "HEX")
+	case "absmod":
+		a, b := in[0], in[1]
+		ab, sg := r.call(37, a), r.call(38, a)
+		if !a.null() && a.K == "i" {
+			md := r.call(39, a, b)
+			switch {
+			case b.null() || b.I == "0":
+				if md.K != "null" {
+					fail("mod/by-zero-or-null-not-null", fmt.Sprintf("MOD(%s,%s) = %v", a.I, b.lit(), md))
+				}
+			default:
+				want := new(big.Int).Rem(a.big(), b.big())
+				if (md.K != "int" && md.K != "dec") || md.rat().Cmp(new(big.Rat).SetInt(want)) != 0 {
+					fail("mod/wrong", fmt.Sprintf("MOD(%s,%s) = %v, expected %s", a.I, b.I, md, want))
+				}
+			}
+		}
+		if wantNull(ab, "ABS", a) || wantNull(sg, "SIGN", a) {
+			break
+		}
+		av := new(big.Rat).SetInt(a.big())
+		if a.K == "d" {
+			av.Quo(av, new(big.Rat).SetInt(pow10(a.Sc)))
+		}
+		if (ab.K != "int" && ab.K != "dec") || ab.rat().Cmp(new(big.Rat).Abs(av)) != 0 {
+			sig := "abs/wrong"
+			if a.I == "-9223372036854775808" {
+				sig = "abs/min-int64-stays-negative"
+			}
+			fail(sig, fmt.Sprintf("ABS(%s) = %v", a.lit(), ab))
+		}
+		if sg.K != "int" || sg.big().Int64() != int64(av.Sign()) {
+			sig := "sign/wrong"
+			if a.K == "d" && new(big.Rat).Abs(av).Cmp(big.NewRat(1, 2)) < 0 {
+				sig = "sign/decimal-fraction-below-half-gives-zero"
+			}
+			fail(sig, fmt.Sprintf("SIGN(%s) = %s", a.lit(), sg.I))
+		}
+	case "ascii":
+		str := in[0]
+		as, od := r.call(40, str), r.call(41, str)
+		ch := r.call(42, in[1:]...)
+		if !str.null() {
+			wa, wo := int64(0), int64(0)
+			if len(str.S) > 0 {
+				wa = int64(str.S[0])
+				_, sz := utf8.DecodeRuneInString(str.S)
+				for _, c := range []byte(str.S[:sz]) {
+					wo = wo<<8 | int64(c)
+				}
+			}
+			if as.K != "int" || as.big().Int64() != wa || od.K != "int" || od.big().Int64() != wo {
+				fail("ascii-ord/wrong", fmt.Sprintf("ASCII/ORD(%q) = %v / %v, expected %d / %d", str.S, as, od, wa, wo))
+			}
+		} else if as.K != "null" || od.K != "null" {
+			fail("ascii/null-not-propagated", "ASCII/ORD(NULL) is not NULL")
+		}
+		var want []byte
+		for _, a := range in[1:] {
+			if a.null() {
+				continue
+			}
+			v := uint32(a.int64())
+			if a.int64() > 4294967295 {
+				v = 4294967295
+			}
+			b := []byte{byte(v >> 24), byte(v >> 16), byte(v >> 8), byte(v)}
+			for len(b) > 1 && b[0] == 0 {
+				b = b[1:]
+			}
+			want = append(want, b...)
+		}
+		if !ch.isStr() || !bytes.Equal(ch.bytes(), want) {
+			fail("char/wrong", fmt.Sprintf("CHAR(%v) = %v, expected %x", in[1:], ch, want))
+		}
+	case "subidx":
+		str, d, k := in[0], in[1], in[2]
+		o := r.call(43, str, d, k)
+		if wantNull(o, "SUBSTRING_INDEX", str, d, k) {
+			break
+		}
+		parts := strings.Split(str.S, d.S)
+		n := int64(len(parts))
+		kk := k.int64()
+		var want string
+		switch {
+		case kk > 0 && kk < n:
+			want = strings.Join(parts[:kk], d.S)
+		case kk > 0:
+			want = str.S
+		case kk < 0 && -kk < n:
+			want = strings.Join(parts[n+kk:], d.S)
+		case kk < 0:
+			want = str.S
+		}
+		if !o.isStr() || o.str() != want {
+			fail("substring_index/wrong", fmt.Sprintf("SUBSTRING_INDEX(%q,%q,%d) = %v, expected %q", str.S, d.S, kk, o, want))
+			break
+		}
+		if kk > 0 && kk < n {
+			rest := r.call(43, str, d, I(-(n - kk)))
+			if !rest.isStr() || o.str()+d.S+rest.str() != str.S {
+				fail("substring_index/halves-do-not-rejoin", fmt.Sprintf("SUBSTRING_INDEX(%q,%q,%d) + d + SUBSTRING_INDEX(..,%d) = %q", str.S, d.S, kk, -(n - kk), o.str()+d.S+rest.str()))
+			}
+		}
+	case "strcmp":
+		a, b := in[0], in[1]
+		ab, ba, aa := r.call(44, a, b), r.call(44, b, a), r.call(44, a, a)
+		if wantNull(ab, "STRCMP", a, b) {
+			break
+		}
+		want := int64(bytes.Compare([]byte(a.S), []byte(b.S)))
+		if ab.K != "int" || ba.K != "int" || ab.big().Int64() != want || ba.big().Int64() != -want || aa.K != "int" || aa.big().Int64() != 0 {
+			fail("strcmp/not-antisymmetric-byte-order", fmt.Sprintf("STRCMP(%q,%q) = %v, reversed %v, self %v", a.S, b.S, ab, ba, aa))
+		}
+	case "fieldelt":
+		key, vals, idx := in[0], in[1:len(in)-1], in[len(in)-1]
+		fl := r.call(45, append([]Arg{key}, vals...)...)
+		el := r.call(46, append([]Arg{idx}, vals...)...)
+		wantF := int64(0)
+		if !key.null() {
+			for i, v := range vals {
+				if !v.null() && strings.ToLower(v.S) == strings.ToLower(key.S) {
+					wantF = int64(i + 1)
+					break
+				}
+			}
+		}
+		if fl.K != "int" || fl.big().Int64() != wantF {
+			fail("field/wrong", fmt.Sprintf("FIELD(%v) = %v, expected %d", in[:len(in)-1], fl, wantF))
+		}
+		if idx.null() || idx.int64() < 1 || idx.int64() > int64(len(vals)) || vals[idx.int64()-1].null() {
+			if el.K != "null" {
+				fail("elt/not-null", fmt.Sprintf("ELT(%s, %v) = %v", idx.lit(), vals, el))
+			}
+		} else if !el.isStr() || el.str() != vals[idx.int64()-1].S {
+			fail("elt/wrong", fmt.Sprintf("ELT(%s, %v) = %v", idx.lit(), vals, el))
+		}
+		if wantF > 0 {
+			back := r.call(46, append([]Arg{I(wantF)}, vals...)...)
+			if !back.isStr() || strings.ToLower(back.str()) != strings.ToLower(key.S) {
+				fail("elt-field/not-inverse", fmt.Sprintf("ELT(FIELD(%q, l), l) = %v", key.S, back))
+			}
+		}
+	case "concatws":
+		sep, vals := in[0], in[1:]
+		o := r.call(47, in...)
+		if sep.null() {
+			if o.K != "null" {
+				fail("concat_ws/null-separator-not-null", "CONCAT_WS(NULL, ...) is not NULL")
+			}
+			break
+		}
+		var parts []string
+		for _, v := range vals {
+			if !v.null() {
+				parts = append(parts, v.S)
+			}
+		}
+		if !o.isStr() || o.str() != strings.Join(parts, sep.S) {
+			fail("concat_ws/wrong", fmt.Sprintf("CONCAT_WS(%v) = %v", in, o))
+		}
 	case "compress":
 		// inverse law on the implementation alone (zlib itself is an oracle): one-shot, framing, and values that are
 		// STORED by several COMPRESS calls (one multi-row INSERT, then one INSERT per row) and read back afterwards
@@ -1061,7 +1471,11 @@ func run(c *lib.Ctx, e *eng.E, cs caseT) {
 			}
 			back, _ := row[0].([]byte)
 			if string(back) != a.S {
-				bad("one-shot-not-inverse", fmt.Sprintf("UNCOMPRESS(COMPRESS(%q)) = %q", a.S, back))
+				if len(a.S) >= 32768 && row[0] == nil {
+					fail("uncompress/payload-32k-or-more-returns-null", fmt.Sprintf("UNCOMPRESS(COMPRESS(<%d bytes>)) = NULL", len(a.S)))
+				} else {
+					bad("one-shot-not-inverse", fmt.Sprintf("UNCOMPRESS(COMPRESS(%.40q...)) = %.40q", a.S, back))
+				}
 			}
 			comp, _ := row[1].([]byte)
 			if len(a.S) == 0 {
@@ -1069,7 +1483,7 @@ func run(c *lib.Ctx, e *eng.E, cs caseT) {
 					bad("empty-not-empty", fmt.Sprintf("COMPRESS('') = %x", comp))
 				}
 			} else if len(comp) < 5 || binary.LittleEndian.Uint32(comp[:4]) != uint32(len(a.S)) {
-				bad("length-prefix-wrong", fmt.Sprintf("COMPRESS(%q) = %x: the first four bytes are not the little-endian length %d", a.S, comp, len(a.S)))
+				bad("length-prefix-wrong", fmt.Sprintf("COMPRESS(%.40q) = %.20x...: the first four bytes are not the little-endian length %d", a.S, comp, len(a.S)))
 			} else if zr, err := zlib.NewReader(bytes.NewReader(comp[4:])); err != nil {
 				bad("body-not-zlib", fmt.Sprintf("COMPRESS(%q) body: %v", a.S, err))
 			} else if plain, err := io.ReadAll(zr); err != nil || string(plain) != a.S {
@@ -1102,12 +1516,14 @@ func run(c *lib.Ctx, e *eng.E, cs caseT) {
 				switch {
 				case a.null() && row[1] != nil:
 					bad("null-not-propagated", "stored COMPRESS(NULL) is not NULL")
+				case !a.null() && len(a.S) >= 32768 && row[1] == nil:
+					// same root cause as the one-shot failure, already reported
 				case !a.null() && (!ok || string(back) != a.S):
 					shape := "multi-row-insert"
 					if k >= len(in) {
 						shape = "insert-per-row"
 					}
-					bad("stored-value-not-inverse", fmt.Sprintf("row %v (%s) of %d stored COMPRESS values: UNCOMPRESS(c) = %q, stored from %q", row[0], shape, 2*len(in), back, a.S))
+					bad("stored-value-not-inverse", fmt.Sprintf("row %v (%s) of %d stored COMPRESS values: UNCOMPRESS(c) = %.40q, stored from %.40q", row[0], shape, 2*len(in), back, a.S))
 				}
 			}
 		}
@@ -1184,6 +1600,21 @@ func main() {
 			{Fam: "b64", In: []Arg{S(strings.Repeat("abc", 57))}},
 			{Fam: "b64", In: []Arg{S(strings.Repeat("abc", 57) + "d")}},
 			{Fam: "compress", In: []Arg{S("aaaa"), S("bbbbbbbb"), S("héllo"), S(""), NUL()}},
+			{Fam: "compress", In: []Arg{S(strings.Repeat("a", 32768)), S("x")}},
+			{Fam: "radix", In: []Arg{I(-256)}},
+			{Fam: "radix", In: []Arg{I(255)}},
+			{Fam: "absmod", In: []Arg{IB(new(big.Int).Neg(new(big.Int).SetUint64(1 << 63))), I(3)}},
+			{Fam: "absmod", In: []Arg{I(-7), I(3)}},
+			{Fam: "absmod", In: []Arg{D(big.NewInt(471), 3), I(2)}},
+			{Fam: "trim", In: []Arg{S("xxabxx"), S("x"), I(0)}},
+			{Fam: "trim", In: []Arg{S("  a b  "), S(" "), I(0)}},
+			{Fam: "replace", In: []Arg{S("aaa"), S("aa"), S("b")}},
+			{Fam: "case", In: []Arg{S("héllo É")}},
+			{Fam: "ascii", In: []Arg{S("日"), I(97), I(256), NUL()}},
+			{Fam: "subidx", In: []Arg{S("a.b.c"), S("."), I(2)}},
+			{Fam: "strcmp", In: []Arg{S("a"), S("A")}},
+			{Fam: "fieldelt", In: []Arg{S("B"), S("a"), S("b"), I(2)}},
+			{Fam: "concatws", In: []Arg{S(","), S("a"), NUL(), S("b")}},
 			{Fam: "conv", In: []Arg{S("18446744073709551615"), I(10), I(16)}},
 			{Fam: "round", In: []Arg{I(15), I(-1)}},
 			{Fam: "round", In: []Arg{D(big.NewInt(-125), 2), I(1)}},
